@@ -55,8 +55,25 @@ func (g *gen) forge(r *rand.Rand, vp *tmproto.ValidatorSet, outside []int) []str
 	}
 	s := sum.Int64() // sets are built with total <= MaxTotalVotingPower
 	k := 1 + r.Intn(2)
-	for len(names) < k {
-		switch x := r.Intn(100); {
+	used := map[int]bool{} // at most one forgery per field group, so that the per-forgery decoder verdicts are attributable
+	group := func(x int) int {
+		switch {
+		case x < 50:
+			return 0
+		case x < 72:
+			return 1
+		case x < 90:
+			return 2
+		}
+		return 3
+	}
+	for tries := 0; len(names) < k && tries < 50; tries++ {
+		x := r.Intn(100)
+		if used[group(x)] {
+			continue
+		}
+		before := len(names)
+		switch {
 		case x < 50: // total_voting_power
 			type tv struct {
 				name string
@@ -185,16 +202,19 @@ func (g *gen) forge(r *rand.Rand, vp *tmproto.ValidatorSet, outside []int) []str
 				names = append(names, "address=wrong-length")
 			}
 		}
+		if len(names) > before {
+			used[group(x)] = true
+		}
 	}
 	return names
 }
 
 type wired struct {
-	impl   *types.ValidatorSet    // what ValidatorSetFromProto returned
-	oracle *types.ValidatorSet    // plain-data view of the forged message for the reference
-	proto  *tmproto.ValidatorSet  // the forged message (after the byte round trip)
-	names  []string               // forgeries applied
-	sum    *big.Int               // real total: sum of the members' powers as sent
+	impl   *types.ValidatorSet   // what ValidatorSetFromProto returned
+	oracle *types.ValidatorSet   // plain-data view of the forged message for the reference
+	proto  *tmproto.ValidatorSet // the forged message (after the byte round trip)
+	names  []string              // forgeries applied
+	sum    *big.Int              // real total: sum of the members' powers as sent
 }
 
 // oracleView: members exactly as sent (key, power, address), nothing else.
